@@ -6,7 +6,7 @@ res = {}
 rp = os.path.join(root, "seeded", "RESULTS.txt")
 if os.path.exists(rp):
     for l in open(rp):
-        m = re.match(r"\[(C\d+-mut\d+) vs (C\d+)/quick\] exit=(\d+)", l)
+        m = re.match(r"\[(C\d+[a-z]?-mut\d+) vs (C\d+)/quick\] exit=(\d+)", l)
         if m:
             res[m.group(1)] = (m.group(2), int(m.group(3)))
 rows = ["| seeded change | what it does (needs) | check run | result |", "|---|---|---|---|"]
@@ -16,7 +16,7 @@ for d in sorted(glob.glob(os.path.join(root, "seeded", "C*-mut*"))):
     summ = re.sub(r"\s+", " ", meta.get("summary", "")).replace("|", "/")
     if len(summ) > 170:
         summ = summ[:167] + "..."
-    c, e = res.get(name, (name.split("-")[0], None))
+    c, e = res.get(name, (re.sub(r"[a-z]$", "", name.split("-")[0]), None))
     verdict = {None: "not run", 0: "**missed** (exit 0)", 1: "caught (VIOLATION, exit 1)", 2: "harness no longer compiles (exit 2)", 3: "inconclusive (exit 3)"}.get(e, "exit %s" % e)
     extra = meta.get("caught_by", "")
     if extra:
